@@ -1,5 +1,5 @@
 (* C12/Properties.v — property theorems only. Each is closed by a lemma of C12/Proofs.v. *)
-From Relic Require Import Base.Prelude Base.Enc Generated.C12_gen C12.Model C12.Proofs C12.FsModel C12.FsProofs.
+From Relic Require Import Base.Prelude Base.Enc Generated.C12_gen C12.Model C12.Proofs C12.FsModel C12.FsProofs C12.AliasModel C12.AliasProofs.
 From Coq Require Import Permutation.
 
 (* 1. write-then-rename on an ascending, disjoint, in-bounds patch list is the reference splice *)
@@ -164,3 +164,48 @@ Proof. vm_compute. split; reflexivity. Qed.
 Example hist_dir_dest_error :
   apply_fs xps xQ (run_history [OCreate xP xd0; OOpen xP; OMkdir xQ] fs0) = Err E_RENAME.
 Proof. vm_compute. reflexivity. Qed.
+
+(* ------------------------------------------------------------------ aliasing of the blobs handed to Add (C12/AliasModel.v)
+   h0 = the caller's buffers; every call's blob is an arbitrary view (buffer, offset, length, capacity) of them — views may
+   overlap, share a buffer, and have spare capacity reaching into other blobs. *)
+
+(* 14. no Add writes a byte of any existing buffer (the heap only grows), so every previously added blob and every caller
+       slice still shows what it showed, and the patch set denotes Model.add_all of the blob CONTENTS AT CALL TIME *)
+Theorem add_never_writes_caller_bytes : forall h0 cs,
+  Forall (fun c => view_ok h0 (hc_view c)) cs ->
+  (exists ext, fst (hadd_all h0 cs) = h0 ++ ext) /\
+  (forall v, ((v_buf v < length h0)%nat \/ v_len v <= 0) -> read (fst (hadd_all h0 cs)) v = read h0 v) /\
+  denote (hadd_all h0 cs) = add_all (map (snap h0) cs).
+Proof. exact C12.AliasProofs.add_never_writes_caller_bytes. Qed.
+Theorem add_allocates_merged_blob : add_merge_mode = 0 /\ add_writes_through_caller = false /\ add_stores_caller_slice = true.
+Proof. exact C12.AliasProofs.add_allocates_merged_blob. Qed.
+
+(* 15. hence the whole pipeline over aliased blobs: the result is the reference splice of the call-time contents *)
+Theorem apply_anyorder_aliased : forall h0 cs file,
+  Forall (fun c => view_ok h0 (hc_view c)) cs ->
+  asc_disjoint 0 (isort (map call_patch (map (snap h0) cs))) (zlen file) = true ->
+  strictly_asc (isort (map call_patch (map (snap h0) cs))) = true ->
+  rewrite (isort (denote (hadd_all h0 cs))) file = Ok (splice_calls (map (snap h0) cs) file).
+Proof. exact C12.AliasProofs.apply_anyorder_aliased. Qed.
+Theorem add_fileorder_aliased : forall h0 cs file,
+  Forall (fun c => view_ok h0 (hc_view c)) cs ->
+  asc_disjoint 0 (map call_patch (map (snap h0) cs)) (zlen file) = true ->
+  splice (denote (hadd_all h0 cs)) file = splice (map call_patch (map (snap h0) cs)) file.
+Proof. exact C12.AliasProofs.add_fileorder_aliased. Qed.
+
+(* non-vacuity: hdr = "AAAABBBBCCCCDDDD" (65..68 x4); Add(20,4,hdr[4:8]); Add(0,4,hdr[0:4]); Add(4,4,"XXXX") — the third call
+   coalesces with the second, whose blob has spare capacity reaching into the first call's blob *)
+Definition xhdr : bytes := [65;65;65;65;66;66;66;66;67;67;67;67;68;68;68;68].
+Definition xh0 : heap := [xhdr; [88;88;88;88]].
+Definition xcs : list hcall := [mkHC 20 4 (mkView 0 4 4 12); mkHC 0 4 (mkView 0 0 4 16); mkHC 4 4 (mkView 1 0 4 4)].
+Example shared_header_in_domain :
+  Forall (fun c => view_ok xh0 (hc_view c)) xcs /\
+  denote (hadd_all xh0 xcs) = [mkPatch 20 4 [66;66;66;66]; mkPatch 0 8 [65;65;65;65;88;88;88;88]] /\
+  fst (hadd_all xh0 xcs) = xh0 ++ [[65;65;65;65;88;88;88;88]].
+Proof. split; [repeat constructor; vm_compute; (lia || reflexivity) | vm_compute; split; reflexivity]. Qed.
+(* the theorem is about the source: the same calls under the OTHER merge (append onto the previous blob) overwrite the
+   first call's content behind its back — this is what add_merge_mode = 0 excludes *)
+Example append_merge_would_alias :
+  denote (hadd_all_mode 1 xh0 xcs) = [mkPatch 20 4 [88;88;88;88]; mkPatch 0 8 [65;65;65;65;88;88;88;88]] /\
+  buf_at (fst (hadd_all_mode 1 xh0 xcs)) 0 <> xhdr.
+Proof. vm_compute. split; [reflexivity | discriminate]. Qed.
